@@ -587,11 +587,18 @@ fn work(args: &Args, entries: &[Entry], w: usize, nw: usize) -> Value {
     let thorough = args.tier == "thorough";
     let all = items(&r, entries);
     let mut merged = Value::Null;
+    // Wall-clock backstop per forked item (the deterministic hang detector is
+    // the seam-event budget; this only catches loops that touch no seam).
+    // Items take seconds; after the first item that had to be killed, the
+    // backstop drops so that a change that makes many parses hang is still
+    // reported within minutes.
+    let backstop = std::cell::Cell::new(if thorough { 1_800_000 } else { 900_000 });
+    let after_first_kill = if thorough { 300_000 } else { 90_000 };
     for (idx, item) in all.iter().enumerate() {
         if idx % nw != w {
             continue;
         }
-        let res = fork_collect(if thorough { 1_800_000 } else { 900_000 }, |wfd| {
+        let res = fork_collect(backstop.get(), |wfd| {
             let v = run_item(&r, entries, item, thorough, args.seed, idx as u64);
             let s = v.to_string();
             let b = s.as_bytes();
@@ -613,7 +620,12 @@ fn work(args: &Args, entries: &[Entry], w: usize, nw: usize) -> Value {
                 Err(_) => report::merge(&mut merged, &json!({"harness_errors": [format!("item {idx}: unparsable child result")]})),
             },
             // a dying or hanging parse is C15's finding, not C12's
-            Err(_) => report::merge(&mut merged, &json!({"stats": {"c15_business": 1}})),
+            Err(end) => {
+                if matches!(end, crate::forkrun::ChildEnd::Timeout) {
+                    backstop.set(after_first_kill);
+                }
+                report::merge(&mut merged, &json!({"stats": {"c15_business": 1}}))
+            }
         }
     }
     // parser reuse: a sentence must parse Ok whatever the same parser value
@@ -628,7 +640,7 @@ fn work(args: &Args, entries: &[Entry], w: usize, nw: usize) -> Value {
         if p.partial() || p.bytes_input() || p.cyclic() {
             continue;
         }
-        let res = fork_collect(900_000, |wfd| {
+        let res = fork_collect(backstop.get().min(900_000), |wfd| {
             let v = run_reuse_item(&r, entries, pi, thorough, args.seed, idx as u64);
             let s = v.to_string();
             let b = s.as_bytes();
